@@ -216,6 +216,9 @@ class ElfWriter:
         # Write sections contained in images:
         for image in self.obj.images:
             self.align_to(self.page_size)
+            # The file offset must be congruent to the virtual address,
+            # modulo the page size:
+            self.f.write(bytes(image.address % self.page_size))
             file_offset = self.f.tell()
 
             for section in image.sections:
